@@ -287,7 +287,9 @@ class EnvWizard(AbstractEnvWizard):
                             var_name = name
                             part = f'({name} := get_env(_var_name))'
 
-                        fn_gen.add_line(f'_name={name!r}; _env_var={env_var!r}; _var_name="%s%s" % (_env_prefix, {var_name!r}) if _env_prefix else {var_name!r}')
+                        # the prefix applies to the variable name, or to *each* of several candidate names
+                        pfx = '"%s%s" % (_env_prefix, {0!r})' if isinstance(var_name, str) else 'tuple(_env_prefix + v for v in {0!r})'
+                        fn_gen.add_line(f'_name={name!r}; _env_var={env_var!r}; _var_name={pfx.format(var_name)} if _env_prefix else {var_name!r}')
 
                         with fn_gen.if_(f'{name} is not MISSING or {part} is not MISSING'):
                             parser_name = f'_parser_{name}'
